@@ -435,7 +435,7 @@ MUTANTS = [
          new="			indices.sort(key=key_fn)\n			if rev:\n				indices.reverse()", rules=["a.permutation", "b.stable-keys"]),
     dict(id="vector-sorted-drops-name", module=_V, old="		new_vector = Vector(new_values, dtype=self._dtype, name=self._name)",
          new="		new_vector = Vector(new_values, dtype=self._dtype)", rules=["a.permutation"]),
-    dict(id="sort-renames-columns-lower", module=_T, old="			new_cols.append(Vector(new_data, name=col._name))\n\n		return Table(new_cols)",
-         new="			new_cols.append(Vector(new_data, name=str(col._name).lower()))\n\n		return Table(new_cols)", rules=["a.permutation"]),
-    dict(id="twin-rename-indices", module=_T, twin=True, edits=[(_T, "indices", "order", 47)]),
+    dict(id="sort-renames-columns-lower", module=_T, old="			new_cols.append(Vector(new_data, dtype=col._dtype, name=col._name))\n\n		return Table(new_cols)",
+         new="			new_cols.append(Vector(new_data, dtype=col._dtype, name=str(col._name).lower()))\n\n		return Table(new_cols)", rules=["a.permutation"]),
+    dict(id="twin-rename-indices", module=_T, twin=True, edits=[(_T, "indices", "order", 51)]),
 ]
